@@ -1085,6 +1085,7 @@ type File struct {
 // Close closes the File, rendering it unusable for I/O. It returns an
 // error, if any.
 func (f *File) Close() error {
+	f.simLock(1, true)
 	f.mu.Lock()
 	defer f.mu.Unlock()
 
@@ -1119,6 +1120,7 @@ func (f *File) Name() string {
 // than calling Read multiple times. io.Copy will do this
 // automatically.
 func (f *File) Read(b []byte) (int, error) {
+	f.simLock(2, true)
 	f.mu.Lock()
 	defer f.mu.Unlock()
 
@@ -1187,6 +1189,7 @@ func (f *File) readAtSequential(b []byte, off int64) (read int, err error) {
 // the number of bytes read and an error, if any. ReadAt follows io.ReaderAt semantics,
 // so the file offset is not altered during the read.
 func (f *File) ReadAt(b []byte, off int64) (int, error) {
+	f.simLock(3, false)
 	f.mu.RLock()
 	defer f.mu.RUnlock()
 
@@ -1284,6 +1287,7 @@ func (f *File) readAt(b []byte, off int64) (int, error) {
 				var n int
 
 				s := <-packet.res
+				simYield("f.map", uint64(packet.id))
 				resPool.Put(packet.res)
 
 				err := s.err
@@ -1321,6 +1325,7 @@ func (f *File) readAt(b []byte, off int64) (int, error) {
 					// DO NOT return.
 					// We want to ensure that workCh is drained before wg.Wait returns.
 				}
+				simYield("f.loop", uint64(packet.id))
 			}
 		}()
 	}
@@ -1395,6 +1400,7 @@ func (f *File) writeToSequential(w io.Writer) (written int64, err error) {
 // to maximise throughput for transferring the entire file,
 // especially over high latency links.
 func (f *File) WriteTo(w io.Writer) (written int64, err error) {
+	f.simLock(4, true)
 	f.mu.Lock()
 	defer f.mu.Unlock()
 
@@ -1513,6 +1519,7 @@ func (f *File) WriteTo(w io.Writer) (written int64, err error) {
 				var n int
 
 				s := <-readWork.res
+				simYield("f.map", uint64(readWork.id))
 				resPool.Put(readWork.res)
 
 				err := s.err
@@ -1553,6 +1560,7 @@ func (f *File) WriteTo(w io.Writer) (written int64, err error) {
 
 				// DO NOT return.
 				// We want to ensure that readCh is drained before wg.Wait returns.
+				simYield("f.loop", uint64(readWork.id))
 			}
 		}()
 	}
@@ -1592,6 +1600,7 @@ func (f *File) WriteTo(w io.Writer) (written int64, err error) {
 // Stat returns the FileInfo structure describing file. If there is an
 // error.
 func (f *File) Stat() (os.FileInfo, error) {
+	f.simLock(5, false)
 	f.mu.RLock()
 	defer f.mu.RUnlock()
 
@@ -1619,6 +1628,7 @@ func (f *File) stat() (os.FileInfo, error) {
 // than calling Write multiple times. io.Copy will do this
 // automatically.
 func (f *File) Write(b []byte) (int, error) {
+	f.simLock(6, true)
 	f.mu.Lock()
 	defer f.mu.Unlock()
 
@@ -1732,6 +1742,7 @@ func (f *File) writeAtConcurrent(b []byte, off int64) (int, error) {
 
 			for work := range workCh {
 				s := <-work.res
+				simYield("f.map", uint64(work.id))
 				pool.Put(work.res)
 
 				err := s.err
@@ -1747,6 +1758,7 @@ func (f *File) writeAtConcurrent(b []byte, off int64) (int, error) {
 				if err != nil {
 					errCh <- wErr{work.off, err}
 				}
+				simYield("f.loop", uint64(work.id))
 			}
 		}()
 	}
@@ -1784,6 +1796,7 @@ func (f *File) writeAtConcurrent(b []byte, off int64) (int, error) {
 // the number of bytes written and an error, if any. WriteAt follows io.WriterAt semantics,
 // so the file offset is not altered during the write.
 func (f *File) WriteAt(b []byte, off int64) (written int, err error) {
+	f.simLock(7, false)
 	f.mu.RLock()
 	defer f.mu.RUnlock()
 
@@ -1839,6 +1852,7 @@ func (f *File) writeAt(b []byte, off int64) (written int, err error) {
 // When one needs to guarantee concurrent reads/writes, this method is preferred
 // over ReadFrom.
 func (f *File) ReadFromWithConcurrency(r io.Reader, concurrency int) (read int64, err error) {
+	f.simLock(8, true)
 	f.mu.Lock()
 	defer f.mu.Unlock()
 
@@ -1928,6 +1942,7 @@ func (f *File) readFromWithConcurrency(r io.Reader, concurrency int) (read int64
 
 			for work := range workCh {
 				s := <-work.res
+				simYield("f.map", uint64(work.id))
 				pool.Put(work.res)
 
 				err := s.err
@@ -1946,6 +1961,7 @@ func (f *File) readFromWithConcurrency(r io.Reader, concurrency int) (read int64
 					// DO NOT return.
 					// We want to ensure that workCh is drained before wg.Wait returns.
 				}
+				simYield("f.loop", uint64(work.id))
 			}
 		}()
 	}
@@ -2012,6 +2028,7 @@ func (f *File) readFromWithConcurrency(r io.Reader, concurrency int) (read int64
 // ReadFromWithConcurrency can be used explicitly to guarantee concurrent
 // processing of the reader.
 func (f *File) ReadFrom(r io.Reader) (int64, error) {
+	f.simLock(9, true)
 	f.mu.Lock()
 	defer f.mu.Unlock()
 
@@ -2096,6 +2113,7 @@ func (f *File) ReadFrom(r io.Reader) (int64, error) {
 // Write. It returns the next offset read. Seeking before or after the end of
 // the file is undefined. Seeking relative to the end calls Stat.
 func (f *File) Seek(offset int64, whence int) (int64, error) {
+	f.simLock(10, true)
 	f.mu.Lock()
 	defer f.mu.Unlock()
 
@@ -2127,6 +2145,7 @@ func (f *File) Seek(offset int64, whence int) (int64, error) {
 
 // Chown changes the uid/gid of the current file.
 func (f *File) Chown(uid, gid int) error {
+	f.simLock(11, false)
 	f.mu.RLock()
 	defer f.mu.RUnlock()
 
@@ -2144,6 +2163,7 @@ func (f *File) Chown(uid, gid int) error {
 //
 // See Client.Chmod for details.
 func (f *File) Chmod(mode os.FileMode) error {
+	f.simLock(12, false)
 	f.mu.RLock()
 	defer f.mu.RUnlock()
 
@@ -2162,6 +2182,7 @@ func (f *File) Chmod(mode os.FileMode) error {
 // is a valid, registered domain name and "name" identifies the method. Server
 // implementations SHOULD ignore extended data fields that they do not understand.
 func (f *File) SetExtendedData(path string, extended []StatExtended) error {
+	f.simLock(13, false)
 	f.mu.RLock()
 	defer f.mu.RUnlock()
 
@@ -2182,6 +2203,7 @@ func (f *File) SetExtendedData(path string, extended []StatExtended) error {
 // size greater than the current size.
 // We send a SSH_FXP_FSETSTAT here since we have a file handle
 func (f *File) Truncate(size int64) error {
+	f.simLock(14, false)
 	f.mu.RLock()
 	defer f.mu.RUnlock()
 
@@ -2196,6 +2218,7 @@ func (f *File) Truncate(size int64) error {
 //
 // Sync requires the server to support the fsync@openssh.com extension.
 func (f *File) Sync() error {
+	f.simLock(15, true)
 	f.mu.Lock()
 	defer f.mu.Unlock()
 
